@@ -233,12 +233,81 @@ def conjunctions(tier):
     return out
 
 
+def purged_copy(w, objs, pol, user, groups):
+    """A copy of the store from which every object the requester may NOT locate has been removed
+    (rows deleted from the SQLite file directly, not through the server)."""
+    import sqlite3
+    hidden = [u for u, o in objs.items() if True not in ref_access.allowed(
+        pol, o['policy'], user, groups, o['owner'], OT(o['object_type']), E.Operation.LOCATE, E.Policy)]
+    w2 = w.clone()
+    w2.engine._data_store.dispose()
+    con = sqlite3.connect(w2.db)
+    try:
+        for u in hidden:
+            con.execute("DELETE FROM managed_objects WHERE uid = ?", (int(u),))
+        con.commit()
+    finally:
+        con.close()
+    w2.restart(clean=True)
+    return w2, hidden
+
+
+def noninterference(family, part, tier):
+    """What a requester's Locate answers - identifiers, success or failure, reason AND message - may
+    not depend on objects the requester is not permitted to locate: every request is sent to the
+    store and to a copy without those objects, and the two answers must be identical."""
+    w, pol = build_store(family)
+    try:
+        objs = ref_store.objects(w.dump())
+        dates = [f for f in FILTERS if f[0] == 'Initial Date']
+        others = [f for f in FILTERS if f[0] != 'Initial Date']
+        conjs = [()] + [(f,) for f in FILTERS]
+        three = (dates[0], dates[1], dates[3])
+        conjs += [(o,) + three for o in others] + [three + (o,) for o in others[::4]]
+        conjs += [(o, dates[0], dates[1]) for o in others[::2]]
+        if tier == 'thorough':
+            conjs += [(a, b) + three for a in others[::3] for b in others[1::4]]
+        for user, groups in REQUESTERS:
+            w2, hidden = purged_copy(w, objs, pol, user, groups)
+            try:
+                if not hidden:
+                    continue
+                part.count('noninterference_requesters')
+                for filters in conjs:
+                    W.CLOCK.now = T0 + 100
+                    a = locate(w, filters, user, groups, (1, 4))
+                    b = locate(w2, filters, user, groups, (1, 4))
+                    part.count('locates', 2)
+                    part.count('noninterference_pairs')
+                    ka = (a[0], a[1].status, a[1].reason, a[1].message)
+                    kb = (b[0], b[1].status, b[1].reason, b[1].message)
+                    if ka != kb:
+                        part.violation("hidden-objects-change-the-answer|%s" % fkey(filters),
+                                       "Locate(%s) by %s on store '%s' answers %s; on the same store without "
+                                       "the %d objects %s may not locate it answers %s" % (
+                                           filters, user, family, (a[0], a[1].brief()), len(hidden), user,
+                                           (b[0], b[1].brief())),
+                                       {'family': family, 'noninterference': True, 'user': user, 'groups': groups,
+                                        'filters': [list(f) if not isinstance(f[1], tuple) else [f[0], list(f[1])]
+                                                    for f in filters]})
+            finally:
+                w2.close()
+        part.sample({'noninterference_family': family, 'conjunctions': len(conjs)})
+    finally:
+        w.close()
+
+
 FAMILIES = ['mixed', 'nocert', 'states', 'empty']
 
 
 def _worker(task):
     family, conjs, tier, versions = task
     part = Part()
+    if conjs == 'noninterference':
+        noninterference(family, part, tier)
+        out = part.as_dict()
+        out['out'] = 0
+        return out
     w, pol = build_store(family)
     try:
         dump = w.dump()
@@ -272,6 +341,8 @@ def run(tier, seed):
         cs = conjs if fam != 'empty' else conjs[:len(FILTERS) + 1]
         for i in range(k):
             tasks.append((fam, cs[i::k], tier, versions))
+    for fam in ('mixed', 'nocert', 'states'):
+        tasks.append((fam, 'noninterference', tier, versions))
     distinct = 0
     for part in pmap(_worker, tasks):
         distinct += part.pop('out', 0)
@@ -283,13 +354,18 @@ def run(tier, seed):
         states=len(FAMILIES), transitions=n, traces_validated_against_impl=n,
         filter_menu=len(FILTERS), conjunctions=len(conjs), store_families=len(FAMILIES),
         requesters=len(REQUESTERS), versions=len(versions), distinct_outcomes=distinct,
+        noninterference_pairs=rep.counters.get('noninterference_pairs', 0),
         exhaustive=True,
         explanation="states = store families built by real operations under the logical clock (ties "
                     "and gaps in initial dates, mixed types/owners/policies/states); transitions = "
                     "Locate requests: all ordered conjunctions of 0..2 filters from the menu, "
                     "triples containing a date range in every position (thorough: more triples), x 3 "
                     "requesters x KMIP 1.4/2.0; for conjunctions of <= 1 filter all 35 "
-                    "(offset, maximum) pairs and page-wise partitioning",
+                    "(offset, maximum) pairs and page-wise partitioning. Non-interference: per store family "
+                    "and requester, ~110 conjunctions (incl. every filter followed / preceded by three "
+                    "Initial Dates) are sent to the store and to a copy from which the objects the "
+                    "requester may not locate were deleted in the SQLite file; identifiers, status, "
+                    "reason and message must be identical",
     ), assumptions=[
         "ties in initial date may come in any order; paging is compared with the unpaged answer of "
         "the same store",
@@ -299,6 +375,10 @@ def run(tier, seed):
 
 def replay(doc):
     part = Part()
+    if doc.get('noninterference'):
+        noninterference(doc['family'], part, 'thorough')
+        v = part.violations
+        return bool(v), '\n'.join("%s: %s" % (k, t) for k, t, _ in v[:10]) or 'no violation'
     w, pol = build_store(doc['family'])
     try:
         objs = ref_store.objects(w.dump())
